@@ -10,6 +10,9 @@ TRUSTED_BASE = [
 
 PROPS = {
     "C11": {
+        "level_text": "Machine-checked theorems over the Gallina model of mergeSpan / Vector.Merge / CSMatrix.Merge for every scalar instance: cell-wise overlay with zero-erasure, sortedness, dims = max, argument reset, and the history theorem (content after any sequence of batches = applying the concatenated updates in order, hence independent of batching). The model is tied to /repo on every run by evaluating it (vm_compute) on the cases the real code was run on (bounded-exhaustive small spans + random histories and re-batchings).",
+        "level_note": "Trusted: Coq kernel + vm_compute; the hand-written model; the Go harness/encoder/projection (non-zero content, dims). Theorems are closed under the global context (no axioms). Aliasing of spans between receiver and argument is exercised, not modelled.",
+        "technique": "Coq proof (induction over spans and histories) + model/implementation correspondence by vm_compute",
         "families": ["C11"],
         "go_tests": "",
         "rule": "bounded-exhaustive: every pair of index-sorted spans over indices <3 (quick) / <4 (thorough) with values in {absent,0,1,2} through Vector.Merge; "
@@ -18,5 +21,17 @@ PROPS = {
                 "for re-batchings: the two batchings differ. Distinct = distinct (kind, input).",
         "explanation": "Theorems C11_* (all scalar instances, all spans/histories) + model-vs-implementation correspondence on projected observables (dims, non-zero content, argument reset).",
         "assumptions": ["sort.Sort on distinct keys behaves as a sort (NewVector/NewCSRMatrix batches have distinct coordinates in the re-batching cases)"],
+    },
+    "C10": {
+        "level_text": "Machine-checked theorems for every scalar instance: NewCSRMatrix stores exactly the listed cells (zeros on request) in strictly sorted in-range rows and any sorting algorithm gives the same rows; Transpose is the dense transpose, preserves well-formedness and is an involution; the shared CSC view has the transposed shape and cells; every history of SetDim/SetMajorDim/SetMinorDim/Transpose equals the dense crop-and-pad history (cells cut by a shrink never return) and well-formedness is invariant under every history incl. merges. Tied to /repo by running the real code and the model on the same coordinate lists and op histories, observed after every op.",
+        "level_note": "Trusted: Coq kernel + vm_compute; hand-written model (slice capacity is not modelled: after the SetMajorDim fix no operation exposes it); harness/encoder. No axioms. mmap state and aliasing of shared spans in views are exercised, not modelled here (C12).",
+        "technique": "Coq proof (induction over rows and over operation histories; extensionality of sorted spans) + correspondence by vm_compute",
+        "families": ["C10"],
+        "go_tests": "^(TestD1ShrinkGrow|TestD2CSCView)$",
+        "rule": "random coordinate lists (distinct coordinates, any order, square/non-square, empty rows/cols, 0xN, rows wider than 12 entries so that sort.Sort leaves its insertion-sort regime) through NewCSRMatrix with and without includeZero; "
+                "random histories (1-12 ops quick, up to 200 thorough) of SetDim/SetMajorDim/SetMinorDim (shrink, grow within and beyond capacity), Transpose, Merge and the same through the shared CSC view (TransposeToCSC -> SetDim/Transpose -> TransposeToCSR), observed after every op together with NNZ and the view's Dims(). "
+                "Non-trivial = more than one coordinate / more than one op; distinct = distinct (kind, input).",
+        "explanation": "Theorems C10_* (every scalar instance; all coordinate lists, all WF matrices, all resize/transpose histories) + correspondence after every step; oracle = dense crop/transpose/overlay reference.",
+        "assumptions": ["sort.Sort returns a sorted permutation (C10_sort_irrelevant then makes the choice of algorithm irrelevant for distinct columns)"],
     },
 }
